@@ -68,6 +68,7 @@ type env = {
   mutable over : bool;      (* the harness can no longer reach the relay's readers: ledger frozen *)
   mutable c_open : bool;
   mutable s_open : bool;
+  mutable c_stalled : bool;   (* the harness holds writes toward the client (STC) *)
 }
 
 let side_of c = if c = 'c' || c = 'C' then Cl else Sv
@@ -110,7 +111,14 @@ let labels_of_part (env : env) (p : string) : label list =
   | "CE1" | "CE2" | "CE3" | "SE1" | "SE2" | "SE3" -> send (side_of hd.[0]) KBad
   | "CC" ->
       env.c_open <- false;
-      if env.started then [ EClose Cl ] else [ EClose Cl; IPreface false ]
+      if not env.started then [ EClose Cl; IPreface false ]
+      else if env.c_stalled then [ EHalf Cl ]   (* the gate keeps the pending write blocked: only reads see the close *)
+      else [ EClose Cl ]
+  | "HC" -> let r = if env.c_open then [ EHalf Cl ] else [] in env.c_open <- false; r
+  | "STC" -> env.c_stalled <- true; [ EStall Cl ]
+  | "STS" -> [ EStall Sv ]
+  | "FH" -> let r = if env.s_open then [ EHalf Sv ] else [] in env.s_open <- false; r
+  | "FR" -> env.s_open <- false; [ EClose Sv ]
   | "SC" -> let r = if env.s_open then [ EHalf Sv ] else [] in env.s_open <- false; r
   | "SR" -> env.s_open <- false; [ EClose Sv ]
   | "WFC" -> [ EWriteFail Cl ]
@@ -118,7 +126,7 @@ let labels_of_part (env : env) (p : string) : label list =
   | _ -> failwith ("bad script op " ^ p)
 
 let ops_of_script (toks : string list) : label list list =
-  let env = { c2s = new_fc (); s2c = new_fc (); started = false; over = false; c_open = true; s_open = true } in
+  let env = { c2s = new_fc (); s2c = new_fc (); started = false; over = false; c_open = true; s_open = true; c_stalled = false } in
   List.map (fun op -> List.concat (List.map (labels_of_part env) (String.split_on_char '+' op))) toks
 
 (* ---- observations ---- *)
@@ -176,8 +184,9 @@ let judge _name ins outs =
           (String.map (fun c -> if c = ' ' then '_' else c) want)
           (String.map (fun c -> if c = ' ' then '_' else c) as_orig) like_orig in
       if err = "PANIC" then VPropfail ("no_panic", detail "Proxy-panicked")
-      else if s.trig then begin
-        (* a session-ending event has happened: the oracle must hold of the observation *)
+      else if s.trig && not (blocks s Cl) && not (blocks s Sv) then begin
+        (* a session-ending event has happened and no write is held up by a peer that stopped reading
+           (the hypotheses of C10_returns): the oracle must hold of the observation *)
         let o = { o_returned = fin; o_upstream_eof = (eof = "1" || eof = "-"); o_goroutines = nat_of_int total } in
         if c10_ok o then begin
           if bits fl <> ret then VDisagree (detail "per-op-return-flags-differ-from-model")
@@ -194,7 +203,8 @@ let judge _name ins outs =
           else VPropfail ("no_blocked_goroutine", detail "Proxy-returned-but-session-goroutines-remain")
         end
       end else begin
-        (* nothing has ended the session: the property is silent; the relay must behave as the model *)
+        (* nothing has ended the session, or a peer that stopped reading still holds a write up:
+           the property is silent; the relay must behave as the model *)
         let want_g = census_named s in
         if bits fl <> ret || (obs_of s).o_returned <> fin || List.sort compare want_g <> List.sort compare g
         then VDisagree (detail "control-scenario-differs-from-model")
